@@ -260,6 +260,7 @@ func propC05(c *Ctx) {
 		// found < number of registered dependencies → return position 0
 		okCmp := false
 		var missingEdges []Edge
+		var cmpRHS []ssa.Value
 		allInstrs(ld, func(in ssa.Instruction) {
 			b, ok := in.(*ssa.BinOp)
 			if !ok || (b.Op != token.LSS && b.Op != token.NEQ) {
@@ -298,6 +299,7 @@ func propC05(c *Ctx) {
 			if !fromDeps {
 				return
 			}
+			cmpRHS = append(cmpRHS, b.Y)
 			t, f := boolEdges(b)
 			if b.Op == token.NEQ || b.Op == token.LSS {
 				missingEdges = append(missingEdges, t...)
@@ -310,6 +312,98 @@ func propC05(c *Ctx) {
 			if loadReachableAfter(r, false) {
 				okCmp = false
 			}
+		}
+		// what the count is compared with: the number of (distinct) registered dependencies, not that number
+		// shifted by a constant (found by a seeded change whose counting helper returned one less)
+		if len(cmpRHS) > 0 {
+			lreg := NewRegion(ld)
+			var expand func(v ssa.Value, d int) []ssa.Value
+			expand = func(v ssa.Value, d int) []ssa.Value {
+				v = stripConv(lreg.Resolve(stripConv(v)))
+				if call, ok := v.(*ssa.Call); ok && d < 4 {
+					if cal := regionCallee(call); cal != nil && lreg.site[cal] == ssa.CallInstruction(call) {
+						var out []ssa.Value
+						for _, r := range returnsOf(cal) {
+							out = append(out, expand(returnValues(r)[0], d+1)...)
+						}
+						return out
+					}
+				}
+				return []ssa.Value{v}
+			}
+			fromDepsVal := func(v ssa.Value) bool {
+				ok := false
+				var walk func(v ssa.Value, d int)
+				walk = func(v ssa.Value, d int) {
+					if v == nil || d > 6 || ok {
+						return
+					}
+					v = stripConv(lreg.Resolve(stripConv(v)))
+					if _, ch := fieldChain(v); len(ch) > 0 && ch[len(ch)-1] == fDeps {
+						ok = true
+						return
+					}
+					switch x := v.(type) {
+					case *ssa.Call:
+						for _, a := range x.Call.Args {
+							walk(a, d+1)
+						}
+					case *ssa.Phi:
+						for _, e := range x.Edges {
+							walk(e, d+1)
+						}
+					}
+				}
+				walk(v, 0)
+				return ok
+			}
+			verdict, detail := true, "the expected count is the number of registered dependencies"
+			for _, rhs := range cmpRHS {
+				for _, lv := range expand(rhs, 0) {
+					aff := &affEnv{reg: lreg}
+					l := aff.Of(lv)
+					nLen := 0
+					var of ssa.Value
+					other := false
+					for a, k := range l.t {
+						if k == 0 {
+							continue
+						}
+						if x, isLen := aff.lens[a]; isLen && k == 1 {
+							nLen++
+							of = x
+						} else {
+							other = true
+						}
+					}
+					if nLen != 1 || other {
+						detail = "the expected count is not written as the size of a collection: not decided"
+						continue
+					}
+					// the collection: the dependency list itself, a set keyed by its elements, or its compacted copy
+					known := fromDepsVal(of)
+					if mk, isMap := stripConv(lreg.Resolve(stripConv(of))).(*ssa.MakeMap); isMap {
+						known = false
+						for _, f := range lreg.Funcs() {
+							allInstrs(f, func(in ssa.Instruction) {
+								if mu, ok := in.(*ssa.MapUpdate); ok && stripConv(mu.Map) == ssa.Value(mk) {
+									if sl, _, isE := elemOf(mu.Key); isE && fromDepsVal(sl) {
+										known = true
+									}
+								}
+							})
+						}
+					}
+					if !known {
+						detail = "the collection whose size is the expected count is not recognised: not decided"
+						continue
+					}
+					if l.c != 0 {
+						verdict, detail = false, fmt.Sprintf("the expected count is the number of registered dependencies %+d: with %d missing position(s) the step is not held back", l.c, -l.c)
+					}
+				}
+			}
+			c.Check("R5.5", "latestDependency/expected-count-is-number-of-dependencies", ld.Pos(), verdict, detail)
 		}
 		c.Check("R5.5", "latestDependency/missing-dependency→no-progress", ld.Pos(), okCmp, "fewer positions than registered dependencies: the step returns without loading")
 	}
